@@ -173,6 +173,7 @@ PATTERNS = (
     [["get_linear_complexity", [], {"blobLen": 1, "stepSize": 12}], ["get_linear_complexity", [], {"blobLen": 11, "stepSize": 2}],
      ["get_linear_complexity", [], {"complexityType": "LC", "blobLen": 2, "stepSize": 1, "wordSize": 12}], ["get_linear_complexity", [], {"complexityType": "LC", "blobLen": 2, "stepSize": 11, "wordSize": 2}]],
     [["get_kappa", [], {}], ["get_kappa_X", [["E"], ["K"]], {}], ["get_kappa_X", [["D"], ["R"]], {}], ["get_kappa_X", [["E", "D"], ["K", "R"]], {}]],
+    [["get_SCD", [], {}], ["get_linear_NCPR", [2], {}], ["get_SCD", [], {}]],
     [["get_isoelectric_point", [], {}], ["get_NCPR", [7.0], {}], ["get_mean_net_charge", [3.5], {}], ["get_FCR", [10.5], {}], ["get_fraction_expanding", [7.0], {}]],
     [["get_NCPR", [7.0], {}], ["get_FCR", [3.5], {}], ["get_isoelectric_point", [], {}], ["get_NCPR", [7.0], {}]],
     [["get_linear_sigma", [3], {}], ["get_linear_FCR", [3], {}], ["get_linear_NCPR", [3], {}], ["get_linear_sigma", [3], {}]],
@@ -242,7 +243,12 @@ def gen_plan(streams, tier):
                     ops.append({"o": (o + 1) % len(lens), "q": copy.deepcopy(q)})
         elif x < p_pattern + p_mut:
             ops.append({"o": o, "m": gen_mutator(rnd, strs[o])})
-        elif x < p_pattern + p_mut + 0.03 and len(lens) < 7:
+        elif x < p_pattern + p_mut + 0.02 and len(lens) > 1:
+            # the same argument-free query on every live object, one after the other
+            name = rnd.choice(NOARG)
+            for oo in range(len(lens)):
+                ops.append({"o": oo, "q": [name, [], {}]})
+        elif x < p_pattern + p_mut + 0.05 and len(lens) < 7:
             # a new object appears in the middle of the history: same string as a live one, a permutation, a tandem repeat, or unrelated
             base = strs[o]
             kind = rnd.choice(("same", "perm", "double", "fresh"))
@@ -257,7 +263,7 @@ def gen_plan(streams, tier):
             ops.append({"new": {"seq": ns, "how": "file" if rnd.random() < 0.2 else "string"}})
             lens.append(len(ns))
             strs.append(ns)
-        elif x < p_pattern + p_mut + 0.11:
+        elif x < p_pattern + p_mut + 0.13:
             ops.append({"o": o, "shuffle": {"fz": sorted(rnd.sample(range(N), rnd.randrange(0, N))) if rnd.random() < 0.5 else []}})
             lens.append(N)
             strs.append(strs[o])
@@ -279,6 +285,11 @@ def gen_plan(streams, tier):
                         kw2 = dict(copy.deepcopy(kw), blobLen=int(b2), stepSize=int(s2))
                         ops.append({"o": o, "q": ["get_linear_complexity", [], kw2]})
                         break
+    if rnd.random() < 0.25:
+        # closing round: a handful of argument-free queries asked of every live object in turn
+        for name in rnd.sample(NOARG, 10):
+            for oo in range(len(lens)):
+                ops.append({"o": oo, "q": [name, [], {}]})
     p_scribble = rnd.choice((0.0, 0.0, 0.15, 0.4))
     p_post = rnd.choice((0.0, 0.3, 1.0))
     for op in ops:
@@ -287,7 +298,7 @@ def gen_plan(streams, tier):
                 op["scribble"] = True        # the caller edits the returned container in place
             if rnd.random() < p_post:
                 op["post"] = True            # look at the stored sequence and site list right after this query
-    return {"property": ID, "env": envmode.choose(rnd), "run_seed": streams.run_seed, "objects": objs, "ops": ops}
+    return {"property": ID, "env": envmode.choose(rnd, extra=("np_err_raise",)), "run_seed": streams.run_seed, "objects": objs, "ops": ops}
 
 
 def corpus():
